@@ -1,11 +1,20 @@
 //! Harness binary `h_relay <PROP> --seed S --tier T [--count N] [--replay F]`.
 //! One module per property (`cNN.rs`, `pub fn run(args: &hcore::Args, out: &mut hcore::Out)`).
 
+mod c47;
+mod c48;
+mod c49;
+
+hcore::install_clock!();
+
 fn main() {
     let args = hcore::Args::parse();
     hcore::quiet_panics();
     let mut out = hcore::Out::new();
     match args.prop.as_str() {
+        "C47" => c47::run(&args, &mut out),
+        "C48" => c48::run(&args, &mut out),
+        "C49" => c49::run(&args, &mut out),
         p => {
             let _ = &mut out;
             eprintln!("h_relay: unknown property {p}");
